@@ -62,18 +62,26 @@ pub async fn compress_lib(
     let input = FragReader::new(source, rs);
     // The archive sink is one more dimension no case structure carries: a Vec accepts every buffer whole, a file or a
     // socket need not. Derived from the case (engine::case_salt), so a replay makes the same choice: half of the cases
-    // write into a sink that takes at most 1 / 7 / 100 / 4096 bytes per call, some of them with Pending in between.
+    // write into a sink that takes at most 1 / 7 / 100 / 4096 bytes per call, some of them with Pending in between. A quarter
+    // of the cases hand the writer a BUFFERING sink by value (tokio's BufWriter, 8 KiB or 1 MiB): what the writer has not
+    // flushed when it returns never reaches the archive, because nobody else can flush a sink that was moved into the call.
     let salt = crate::engine::case_salt();
-    let (max_write, pending_every) = match salt % 8 {
-        0 => (1usize, 0usize),
-        1 => (7, 0),
-        2 => (100, 3),
-        3 => (4096, 0),
-        _ => (0, 0),
+    let (max_write, pending_every, buffered) = match salt % 8 {
+        0 => (1usize, 0usize, 0usize),
+        1 => (7, 0, 0),
+        2 => (100, 3, 0),
+        3 => (4096, 0, 0),
+        4 => (0, 0, 8192),
+        5 => (100, 0, 1 << 20),
+        _ => (0, 0, 0),
     };
     let mut out = crate::iod::ShortWriter::new(max_write, pending_every);
-    let r = create_archive(input, &mut out, &opts).await.map_err(|e| format!("create_archive: {}", e))?;
-    let _ = r;
+    let r = if buffered > 0 {
+        create_archive(input, tokio::io::BufWriter::with_capacity(buffered, &mut out), &opts).await
+    } else {
+        create_archive(input, &mut out, &opts).await
+    };
+    r.map_err(|e| format!("create_archive: {}", e))?;
     Ok(out.data)
 }
 
